@@ -89,36 +89,64 @@ theorem file_order_witness :
 
 /-! ## first-come numbering (NameSelector) -/
 
-/-- What *does* hold as the code is: if no two entities share `(get_dir(), name)`,
-    every entity gets number 1 (its plain lower-cased name) whatever the order of
-    the `get_name` requests — so its URL is independent of file order and hash seed. -/
-theorem numbering_order_irrelevant_partial (reqs : List Ent)
-    (hkeys : ∀ a b, a ∈ reqs → b ∈ reqs → a.key = b.key → a.uid = b.uid)
-    (e : Ent) (he : e ∈ reqs) : numOf (numberN reqs) e.uid = some 1 := by
-  unfold numOf numberN
-  obtain ⟨p, hp, hpe⟩ := numberAux_mem [] reqs e he (by simp)
-  cases hf : (numberAux [] reqs).find? (fun p => p.1.uid == e.uid) with
+/-- What holds for both variants of the counter key (`lk = false`: name as written, the
+    code before 8dec555; `lk = true`: lower-cased name): if no two entities share the key
+    `(get_dir(), name)`, every entity gets number 1 (its plain lower-cased name) whatever the
+    order of the `get_name` requests — so its URL is independent of file order and hash seed. -/
+theorem numbering_order_irrelevant_partial (lk : Bool) (reqs : List Ent)
+    (hkeys : ∀ a b, a ∈ reqs → b ∈ reqs → a.keyAs lk = b.keyAs lk → a.uid = b.uid)
+    (e : Ent) (he : e ∈ reqs) : numOf (numberNWith lk reqs) e.uid = some 1 := by
+  unfold numOf numberNWith
+  obtain ⟨p, hp, hpe⟩ := numberAux_mem (lk := lk) [] reqs e he (by simp)
+  cases hf : (numberAux lk [] reqs).find? (fun p => p.1.uid == e.uid) with
   | none =>
     have := List.find?_eq_none.mp hf p hp
     simp [hpe] at this
   | some q =>
     have hq := List.mem_of_find?_eq_some hf
-    have := numberAux_unique [] reqs (by simpa using hkeys) q hq
+    have := numberAux_unique (lk := lk) [] reqs (by simpa using hkeys) q hq
     simp [this]
 
 /-- ... hence any two request orders (any two runs) agree on every entity. -/
-theorem numbering_two_runs_agree_partial (r₁ r₂ : List Ent) (hp : r₁.Perm r₂)
+theorem numbering_two_runs_agree_partial (lk : Bool) (r₁ r₂ : List Ent) (hp : r₁.Perm r₂)
+    (hkeys : ∀ a b, a ∈ r₁ → b ∈ r₁ → a.keyAs lk = b.keyAs lk → a.uid = b.uid)
+    (e : Ent) (he : e ∈ r₁) : numOf (numberNWith lk r₁) e.uid = numOf (numberNWith lk r₂) e.uid := by
+  rw [numbering_order_irrelevant_partial lk r₁ hkeys e he]
+  rw [numbering_order_irrelevant_partial lk r₂
+    (fun a b ha hb => hkeys a b (hp.mem_iff.mpr ha) (hp.mem_iff.mpr hb)) e (hp.mem_iff.mp he)]
+
+/-- ... in particular for the NameSelector of the working tree (the key variant is read
+    from the AST of `get_name` on every run). -/
+theorem tree_numbering_two_runs_agree_partial (r₁ r₂ : List Ent) (hp : r₁.Perm r₂)
     (hkeys : ∀ a b, a ∈ r₁ → b ∈ r₁ → a.key = b.key → a.uid = b.uid)
-    (e : Ent) (he : e ∈ r₁) : numOf (numberN r₁) e.uid = numOf (numberN r₂) e.uid := by
-  rw [numbering_order_irrelevant_partial r₁ hkeys e he]
-  rw [numbering_order_irrelevant_partial r₂ (fun a b ha hb => hkeys a b (hp.mem_iff.mpr ha) (hp.mem_iff.mpr hb))
-    e (hp.mem_iff.mp he)]
+    (e : Ent) (he : e ∈ r₁) : numOf (numberN r₁) e.uid = numOf (numberN r₂) e.uid :=
+  numbering_two_runs_agree_partial Gen.C12.countKeyLower r₁ r₂ hp hkeys e he
 
 /-- An identifier, once handed out, never changes during a run: the numbering of a
     request sequence is a prefix of the numbering of any extension of it. -/
-theorem numbering_stable (r₁ r₂ : List Ent) : ∃ rest, numberN (r₁ ++ r₂) = numberN r₁ ++ rest := by
-  obtain ⟨s, hs⟩ := numberAux_append [] r₁ r₂
-  exact ⟨numberAux s r₂, hs⟩
+theorem numbering_stable (lk : Bool) (r₁ r₂ : List Ent) :
+    ∃ rest, numberNWith lk (r₁ ++ r₂) = numberNWith lk r₁ ++ rest := by
+  obtain ⟨s, hs⟩ := numberAux_append (lk := lk) [] r₁ r₂
+  exact ⟨numberAux lk s r₂, hs⟩
+
+/-- Two different items never get the same number under the same counter key, for every
+    request sequence.  With the lower-cased key (`lk = true`) this is what separates `Foo`
+    from `foo`: same key, hence different numbers, hence `foo` and `foo~2`. -/
+theorem numbering_same_key_distinct_numbers (lk : Bool) (reqs : List Ent) (p q : Ent × Nat)
+    (hp : p ∈ numberNWith lk reqs) (hq : q ∈ numberNWith lk reqs)
+    (hk : p.1.keyAs lk = q.1.keyAs lk) (hn : p.2 = q.2) : p = q :=
+  numberAux_distinct (lk := lk) [] reqs p q hp hq hk hn
+
+/-- Names that differ only in case: counted under the name as written both become `foo`
+    (one page, one graph node, one graph file for two entities — the root of the findings
+    C12-case-collision-hash-order and C12-parallel-graph-file-race); counted under the
+    lower-cased name they become `foo` and `foo~2`. -/
+theorem case_variants_witness :
+    numberWith false [⟨1, "proc".toList, "Foo".toList⟩, ⟨2, "proc".toList, "foo".toList⟩]
+      = [(⟨1, "proc".toList, "Foo".toList⟩, "foo".toList), (⟨2, "proc".toList, "foo".toList⟩, "foo".toList)] ∧
+    numberWith true [⟨1, "proc".toList, "Foo".toList⟩, ⟨2, "proc".toList, "foo".toList⟩]
+      = [(⟨1, "proc".toList, "Foo".toList⟩, "foo".toList), (⟨2, "proc".toList, "foo".toList⟩, "foo~2".toList)] := by
+  decide
 
 /-- The defect: with two equally named entities in one directory the numbering is
     first-come, so the request order (file order, hash order) decides who is `foo`
